@@ -270,7 +270,7 @@ def registries():
     from autograd.core import primitive_vjps, primitive_jvps, VSpace
     from autograd.tracer import notrace_primitives, Box
     return {"vjps": {id(k): id(v) for k, v in primitive_vjps.items()}, "jvps": {id(k): id(v) for k, v in primitive_jvps.items()},
-            "notrace": frozenset((k.__name__, frozenset(map(id, v))) for k, v in notrace_primitives.items()),
+            "notrace": frozenset((getattr(k, "__name__", repr(k)), frozenset(map(id, v))) for k, v in notrace_primitives.items()),
             "boxes": {id(k): id(v) for k, v in Box.type_mappings.items()}, "vspaces": {id(k): id(v) for k, v in VSpace.mappings.items()}}
 
 
